@@ -259,16 +259,27 @@ func (c *c10RetryCfg) policy() (resilience.Policy, error) {
 }
 
 type c10BreakerCfg struct {
-	MinCalls  int `json:"minimumNumberOfCalls"`
-	Threshold int `json:"failureRateThreshold"`
-	Window    int `json:"slidingWindowSize"`
+	MinCalls  int    `json:"minimumNumberOfCalls"`
+	Threshold int    `json:"failureRateThreshold"`
+	Window    int    `json:"slidingWindowSize"`
+	WaitOpen  string `json:"waitDurationInOpenState,omitempty"`               // "" = 1h (never leaves OPEN in a run)
+	Permitted int    `json:"permittedNumberOfCallsInHalfOpenState,omitempty"` // 0 = 1
 }
 
 func (c *c10BreakerCfg) policy() (resilience.Policy, error) {
+	waitOpen, permitted := "1h", 1
+	if c.WaitOpen != "" {
+		waitOpen = c.WaitOpen
+	}
+	if c.Permitted != 0 {
+		permitted = c.Permitted
+	}
+	// maxWaitDurationInHalfOpenState stays at its documented default 0: "wait infinitely in
+	// HALF_OPEN state until all permitted requests have been completed"
 	return resilience.NewPolicy(map[string]interface{}{
 		"kind": "CircuitBreaker", "name": "c10cb", "slidingWindowType": "COUNT_BASED",
 		"slidingWindowSize": c.Window, "minimumNumberOfCalls": c.MinCalls, "failureRateThreshold": c.Threshold,
-		"waitDurationInOpenState": "1h", "slowCallDurationThreshold": "1h", "permittedNumberOfCallsInHalfOpenState": 1,
+		"waitDurationInOpenState": waitOpen, "slowCallDurationThreshold": "1h", "permittedNumberOfCallsInHalfOpenState": permitted,
 	})
 }
 
@@ -483,6 +494,16 @@ func c10FinalOK(pool *c10PoolCfg, last c10Attempt, res *c10Result) bool {
 	}
 	if last.Kind == "neterr" && res.CancelAsked && res.Result == resultClientError && res.Status == 499 && res.Body == "" {
 		// a transport error that surfaces after the client has gone is the client's
+		return true
+	}
+	if last.Kind == "hang" && res.CancelAsked && res.Result == resultClientError && res.Status == 499 && res.Body == "" {
+		// a hanging attempt that ends because the client has gone (an attempt that the retry
+		// loop had already decided to start when the cancel completed) is the client's
+		return true
+	}
+	if (last.Kind == "cancel" || last.Kind == "hangcancel") && pool.Timeout != "" && res.Result == resultTimeout && res.Status == 408 && res.Body == "" {
+		// under load the pool's time limit may have expired in the attempt during which the
+		// client cancels, before the cancel was complete — wall-clock upper bounds are not judged
 		return true
 	}
 	if last.Kind == "neterr" && pool.Timeout != "" && res.Result == resultTimeout && res.Status == 408 && res.Body == "" {
